@@ -8,7 +8,7 @@
    run the model against the implementation.
 
    Python str and bytes are both `str = list N`.  Exceptions are one enum; an exception ends a run. *)
-From CssV Require Import Base Tokenizer CodecPyLib Gen.CodecFns.
+From CssV Require Import Base CodecPyLib Gen.CodecFns.
 
 Inductive err :=
 | EUnicode   (* UnicodeError / UnicodeDecodeError / UnicodeEncodeError *)
@@ -29,6 +29,22 @@ Definition is_sig (e : str) : bool := eqs (lower (py_replace_char e 95%N 45%N)) 
 Definition nosig (e : str) : str := if is_sig e then s "utf-8" else e.
 Definition css_name : str := s "css".
 
+(* _is_css(name): codecs.lookup(name).name == "css".  The css codec is found under every spelling that CPython's
+   lookup normalisation (_Py_normalize_encoding: ASCII letters lowered, digits and '.' kept, every other run of
+   characters -- non-ASCII included -- becomes one '_', none at the start or end) maps to "css". *)
+Definition is_alnum_dot (c : N) : bool :=
+  (N.leb 48 c && N.leb c 57) || (N.leb 65 c && N.leb c 90) || (N.leb 97 c && N.leb c 122) || N.eqb c 46.
+Definition lower_ascii (c : N) : N := if N.leb 65 c && N.leb c 90 then N.add c 32 else c.
+Fixpoint css_norm (x : str) (punct started : bool) : str :=
+  match x with
+  | [] => []
+  | c :: r =>
+    if is_alnum_dot c then
+      (if punct && started then [95%N] else []) ++ lower_ascii c :: css_norm r false true
+    else css_norm r true started
+  end.
+Definition is_css (e : str) : bool := eqs (css_norm e false false) css_name.
+
 (* which encoding is used: l.216-221 (one-shot, final = true) and l.290-298 (incremental) *)
 Inductive pick := PBuffer | PFail (e : err) | PEnc (e : str).
 
@@ -39,7 +55,7 @@ Definition pick_encoding (encoding : option str) (force : bool) (input : str) (f
     | None => PFail EIndex
     | Some (None, _) => PBuffer
     | Some (Some e, explicit) =>
-      if eqs e css_name then PFail EValue
+      if is_css e then PFail EValue
       else match encoding with
            | None => PEnc e
            | Some e' => if explicit && negb force then PEnc e else PEnc e'
@@ -72,7 +88,7 @@ Section Model.
 
   (* ---------------------------------------------------------------- one-shot encode, l.228-239 *)
   Definition encode_with (e : str) (oi : option str) : res str :=
-    if eqs e css_name then Err EValue
+    if is_css e then Err EValue
     else match oi with None => Err EType | Some i => eshot e i end.
 
   Definition encode (input : str) (encoding : option str) : res str :=
@@ -160,7 +176,7 @@ Section Model.
       | None => (mkE None (es_encoding st) input, Ok [])
       | Some (None, input) => (mkE None None input, Ok [])
       | Some (Some enc, input) =>
-        if eqs enc css_name then (mkE None (Some enc) (es_buf st), Err EValue)
+        if is_css enc then (mkE None (Some enc) (es_buf st), Err EValue)
         else match einit enc with
              | None => (mkE None (Some enc) (es_buf st), Err ELookup)
              | Some e =>
